@@ -30,7 +30,7 @@ def control_rule(cc):
     # control wrappers nest: state_control< C >::type< Rule > is shuffle_states< state_control< C >::control< Rule >, rotate_right< 1 > >
     import re
     for _ in range(6):
-        if r and (re.match(r'^tao::pegtl::(shuffle_states|remove_first_state|remove_last_states|normal)<', r) or re.search(r'>::(control|state_handler|type)<', r)):
+        if r and (re.match(r'^tao::pegtl::(shuffle_states|remove_first_state|remove_last_states|normal)<', r) or re.search(r'>::(control|state_handler|type)<', r) or re.match(r'^[\w:]*?(\w+_control|control_\w+)<', r)):
             r = _control_rule1(r, None)
         else: break
     return r
